@@ -20,7 +20,7 @@ TECHNIQUE = "runtime monitor: reference timer/counter model compared with device
 LEVEL_TEXT = (
     "Generated telegram histories (quick 520, thorough 16 x 8000; 3..14 telegrams each) for Switch(reset_after), BinarySensor(reset_after) and "
     "BinarySensor(context_timeout) over invert / state-address / ignore_internal_state / always_callback options, telegram kinds (write, response, "
-    "own command, state address), value-unchanged repeats, gaps drawn around the configured times (fractions, just below, just above, far beyond). "
+    "own command, state address), value-unchanged repeats, connection flaps (DISCONNECTED/CONNECTING/CONNECTED through the real ConnectionManager) in 55% of the histories, gaps drawn around the configured times (fractions, just below, just above, far beyond). "
     "Exploration: histories are sampled."
 )
 LEVEL_NOTE = (
@@ -107,6 +107,19 @@ def gen(rng: random.Random, index: int) -> dict:
             if spec.get(key) is not None:
                 expiries.add(t + spec[key])
     spec["events"] = events
+    # connection flaps through the real ConnectionManager, at odd multiples of 2^-7 s (never on a telegram, an expiry or a probe)
+    flaps = []
+    if rng.random() < 0.55:
+        for _ in range(rng.randint(1, 3)):
+            a = (2 * rng.randint(0, int((t + 2 * base) / G)) + 1) * G / 2
+            dur = rng.choice((0.0, G, base / 2, base, 2 * base + G))
+            seq = [(a, "DISCONNECTED")]
+            if rng.random() < 0.5:
+                seq.append((a + dur / 2 if dur else a, "CONNECTING"))
+            seq.append((a + dur, "CONNECTED"))
+            # keep every instant off the telegram grid
+            flaps.extend(((int(x / G) * G + G / 2), st) for x, st in seq)
+    spec["flaps"] = flaps
     return spec
 
 
@@ -201,7 +214,9 @@ def run_case(ctx, spec: dict) -> str | None:
         if c is not None:
             for d, tag in ((c - E, "window-eps"), (c, "window"), (c + E, "window+eps")):
                 points.append((e["t"] + d, 1, tag, e))
-    points.sort(key=lambda p: (p[0], p[1]))
+    for i, (ft, fstate) in enumerate(spec.get("flaps", [])):
+        points.append((ft, 0, "conn", {"state": fstate, "i": i}))
+    points.sort(key=lambda p: (p[0], p[1], p[3].get("i", 0) if p[2] == "conn" else 0))
 
     async def scenario() -> None:
         await h.start()
@@ -263,8 +278,27 @@ def run_case(ctx, spec: dict) -> str | None:
                     return False
             return True
 
+        from xknx.core import XknxConnectionState
+        from xknx.core.connection_state import XknxConnectionType
+
         for t, _o, tag, e in points:
             await h.sleep_until(t0 + t)
+            if tag == "conn":
+                # the reference timer / counter ignores connection state changes
+                state = XknxConnectionState[e["state"]]
+                h.xknx.connection_manager.connection_state_changed(
+                    state, XknxConnectionType.TUNNEL_TCP if state is XknxConnectionState.CONNECTED else XknxConnectionType.NOT_CONNECTED)
+                trace.append(("conn", t, e["state"]))
+                ctx.count("connection_" + e["state"].lower())
+                if state is XknxConnectionState.CONNECTED:
+                    if model.state(t) and model.deadline is not None:
+                        ctx.count("reconnect_while_reset_timer_pending")
+                    if model.window_end is not None and t < model.window_end:
+                        ctx.count("reconnect_while_context_window_open")
+                await h.settle()
+                if not probe(t, "after-connection-" + e["state"].lower()):
+                    return
+                continue
             if tag != "event":
                 if t in times:
                     continue  # probed by the telegram at that instant
@@ -365,7 +399,8 @@ def run(ctx):
     ctx.require("probe_state", "probe_counter", "probe_counter_above_one", "probe_reset-eps", "probe_reset", "probe_reset+eps",
                 "probe_window-eps", "probe_window", "telegram_on", "telegram_off", "how_command", "how_write", "how_response",
                 "response_judged", "response_on_while_on_must_restart_timer", "write_on_while_on_must_restart_timer",
-                "response_ignored_for_counting", "response_counted_like_a_write")
+                "response_ignored_for_counting", "response_counted_like_a_write",
+                "reconnect_while_reset_timer_pending", "reconnect_while_context_window_open")
     n = ctx.scale(520, 8000 * 16)
     for i in range(n):
         if not ctx.mine(i):
